@@ -304,6 +304,33 @@ def input_contracts():
     return cs
 
 
+def predicate_contracts():
+    """The kind predicates every library function and the finaliser branch
+    on: a string is never an iterable / sequence, a mapping is never an
+    iterable (C08 lazy flows, C10 kinds, C13 flatten / selectMany)."""
+    cs = []
+
+    def c(fname, **kw):
+        kw.setdefault('serves', ('C08', 'C10', 'C13', 'C14'))
+        x = Contract(U + fname, **kw)
+        x.native_scope = 3
+        cs.append(x)
+        return x
+    c('is_iterator', params=dict(obj=TVal),
+      ensures=['result == isinstance(obj, "Iterator")'])
+    c('is_iterable', params=dict(obj=TVal),
+      ensures=['result == (isinstance(obj, "Iterable") and not '
+               'isinstance(obj, "str") and not isinstance(obj, "Mapping"))'])
+    c('is_sequence', params=dict(obj=TVal),
+      ensures=['result == (isinstance(obj, "Sequence") and not '
+               'isinstance(obj, "str"))'])
+    c('is_mutable', params=dict(obj=TVal),
+      ensures=['result == (isinstance(obj, "MutableSequence") or '
+               'isinstance(obj, "MutableSet") or isinstance(obj, '
+               '"MutableMapping"))'])
+    return cs
+
+
 def prealloc_contracts():
     """Repetition refuses BEFORE allocating: normal return implies that the
     own size of the result fits the quota (T-size linear model)."""
